@@ -97,7 +97,7 @@ def gen_case(rng):
         return chain_case(layers, env={}, tail=("outdocs",))
     if r < 0.7:
         # nested repeats sharing one template text (the model is the judge)
-        layers = [gen.nested_repeat_same_template(rng)]
+        layers = [gen.nested_repeat_same_template(rng) if rng.random() < 0.5 else gen.named_outer_nested_inner(rng)]
         if rng.random() < 0.25 and "$repeat" in layers[0]:
             layers.append({"$repeat": rng.choice([1, 2, 4])})
         return chain_case(layers, env={}, tail=("outdocs",))
